@@ -158,16 +158,18 @@ def run(ctx: Ctx):
     ctx.use(rec)
     gr = cfg_of(rec)
     rmsg = [a.arg for a in rec.node.args.args][2]
-    creates = []
+    creates = []     # (node, expression the window is created with)
     for n in A.walk_no_nested(rec.node):
         if isinstance(n, ast.Assign) and any(
                 isinstance(t, ast.Subscript) and A.dotted(t.value) == f"self.{WIN}" for t in n.targets):
-            creates.append(n)
+            creates.append((n, n.value))
+        elif isinstance(n, ast.Call) and isinstance(n.func, ast.Attribute) and n.func.attr == "setdefault" \
+                and A.dotted(n.func.value) == f"self.{WIN}" and len(n.args) == 2:
+            creates.append((n, n.args[1]))     # atomic get-or-create
     cons = "_record_answer:window-type"
     ctx.inst(cons)
     ok = False
-    for c in creates:
-        v = c.value
+    for c, v in creates:
         if isinstance(v, ast.Call) and A.call_name(v) in ("deque", "collections.deque"):
             ml = [k.value for k in v.keywords if k.arg == "maxlen"]
             if len(v.args) >= 2:
@@ -176,7 +178,7 @@ def run(ctx: Ctx):
                     and (not v.args or (isinstance(v.args[0], (ast.List, ast.Tuple)) and not v.args[0].elts)):
                 ok = True
     if not ok:
-        ctx.fail(cons, rec.loc(creates[0]) if creates else rec.loc(),
+        ctx.fail(cons, rec.loc(creates[0][0]) if creates else rec.loc(),
                  "an origin's window is not created as deque(maxlen=self.retransmit_queue_size): "
                  "the configured number of most recent answers is not what is remembered")
     # other mutations of the window than append
@@ -212,6 +214,9 @@ def run(ctx: Ctx):
             ctx.fail(cons, rec.loc(a), "the value remembered is not the answer's end-to-end identifier")
         sub = a.func.value
         rec_key = ast.unparse(sub.slice) if isinstance(sub, ast.Subscript) else None
+        if rec_key is None and isinstance(sub, ast.Call) and isinstance(sub.func, ast.Attribute) \
+                and sub.func.attr == "setdefault" and A.dotted(sub.func.value) == f"self.{WIN}" and sub.args:
+            rec_key = ast.unparse(sub.args[0])
         # the append must happen whenever the origin is known (dominates normal exit past the lookup)
         an = [n for n in gr.nodes if a in n.calls()]
         facts = must_facts(gr, Atomizer(model, rec.module, nc), an[0]) if an else set()
